@@ -349,7 +349,8 @@ def check_call(fq, args, kwargs=None, contract=None, fn=None):
                             continue
                         if not ok:
                             failures.append(("%s/%s" % (tag, nm), "result %s" % short(result)))
-    if not failures and raised is None and (c.get("pure") or c.get("modifies") == []) and not c.get("callee_events"):
+    if not failures and raised is None and (c.get("pure") or not c.get("modifies")) and not c.get("callee_events") \
+            and not c.get("trace") and not c.get("emits") and not any(cs.get("emits") for cs in (c.get("cases") or [])):
         # an observer (empty frame): asked again with the same arguments it must answer the same -- a memo, a position
         # remembered on the object or a list reversed in place shows here
         try:
